@@ -15,14 +15,24 @@ import (
 )
 
 func genCrash(g *Gen) {
-	nHist := g.Scale(15, 150)
+	nHist := g.Scale(12, 150)
 	for h := 0; h < nHist; h++ {
 		bg := h%3 == 2
 		rw := newLineRewriter(g, "crash")
 		l := rw.l
+		resetSpenders()
 		flush := func() {
 			rw.flush(func(op, body string) (string, string) {
-				if bg && isObservation(strings.Fields(body)) {
+				if op == "recvtx" {
+					name := strings.Fields(body)[1]
+					if !singleSpender(l, name) {
+						dropFromPool(l, name)
+						g.Stats["recvtx-suppressed"]++
+						return "", ""
+					}
+				}
+				if bg && (op == "recvtx" || isObservation(strings.Fields(body))) {
+					// the ledger model does not cover import / removal: executed and recorded only
 					return "rec", "rec " + body
 				}
 				return "", body
@@ -34,7 +44,11 @@ func genCrash(g *Gen) {
 			l.op("q-wallets", "wallets")
 			flush()
 		}
-		l.start(1 + g.Rng.Intn(2))
+		if bg {
+			l.start(2)
+		} else {
+			l.start(1 + g.Rng.Intn(2))
+		}
 		flush()
 		steps := 6 + g.Rng.Intn(g.Scale(10, 24))
 		boots := 0
@@ -61,8 +75,13 @@ func genCrash(g *Gen) {
 			case k < 12:
 				l.reorgTo(1+g.Rng.Intn(g.Scale(3, 6)), 1+g.Rng.Intn(2))
 			case k < 15:
-				prunePool(l)
-				l.recv()
+				// not while an import is in progress: an unconfirmed transaction that arrives during
+				// the import is dropped for the importing wallet (C07's subject), and a restarted
+				// wallet finishes its import at once - the two runs would differ by worker timing
+				if !(bg && impState == 2) {
+					prunePool(l)
+					l.recv()
+				}
 			case k < 17:
 				l.newAddr(l.wallets[g.Rng.Intn(len(l.wallets))])
 			case k < 18 && len(l.wallets) < 4 && !bg:
@@ -133,6 +152,13 @@ func genCrash(g *Gen) {
 			rw.emit("importstep", "importstep WI")
 			rw.emit("importstep", "importstep WI")
 			rw.emit("importstep", "importstep WI")
+		}
+		if bg && removed == "" && len(l.wallets) > 1 {
+			l.drain()
+			flush()
+			rw.emit("remove", "remove "+l.wallets[0])
+			rw.emit("removerun", "removerun "+l.wallets[0])
+			l.wallets = l.wallets[1:]
 		}
 		quiesce(true)
 		if !bg {
